@@ -199,9 +199,23 @@ Qed.
 (* ---------------------------------------------------------------- generic traversal *)
 (* A state predicate GG that is preserved by the primitive state operations is preserved by
    mux_step and mux_run. *)
+(* the attributes of a track that no operation changes *)
+Definition tk_static (t : trk) : tcfg * bool * nat := (tk_cfg t, tk_leading t, tk_stream t).
+(* ... and those that only muxerPart.writeSample / finalize change: everything but the look-ahead
+   sample, the first-random-access flag and the current parameters *)
+Definition tk_frame (t : trk) : tcfg * bool * nat * option (list sample) * Z :=
+  (tk_cfg t, tk_leading t, tk_stream t, tk_samples t, tk_start t).
+
+Lemma map_upd_static {A B} (g : A -> B) (l : list A) i f :
+  (forall x, g (f x) = g x) -> map g (upd l i f) = map g l.
+Proof.
+  intros Hf. revert i. induction l as [|x l IH]; intros [|i]; simpl; auto; now rewrite ?Hf, ?IH.
+Qed.
+
 Section Traverse.
   Variable GG : mstate -> Prop.
   Hypothesis H_frame : forall m tracks pending sdurs adj freeze errs,
+    map tk_frame tracks = map tk_frame (m_tracks m) ->
     GG m -> GG {| m_cfg := m_cfg m; m_tracks := tracks; m_streams := m_streams m; m_pending := pending;
                   m_sdurs := sdurs; m_adj := adj; m_freeze := freeze; m_paths := m_paths m; m_errs := errs |}.
   Hypothesis H_create : forall m d ntp, GG m -> GG (createFirstSegment m d ntp).
@@ -212,12 +226,13 @@ Section Traverse.
   Hypothesis H_pws : forall m ti si smp m', GG m -> part_writeSample m ti si smp = Ok m' -> GG m'.
   Hypothesis H_ts : forall m si u size e inc, GG m -> GG (fst (ts_write m si u size e inc)).
 
-  Lemma T_upd_track m i f : GG m -> GG (upd_track m i f).
-  Proof. intros H. unfold upd_track, set_tracks. now apply H_frame. Qed.
+  Lemma T_upd_track m i f : (forall t, tk_frame (f t) = tk_frame t) -> GG m -> GG (upd_track m i f).
+  Proof. intros Hf H. unfold upd_track, set_tracks. apply H_frame; [now apply map_upd_static|exact H]. Qed.
   Lemma T_set_pending m b : GG m -> GG (set_pending m b).
   Proof. intros H. unfold set_pending. now apply H_frame. Qed.
   Lemma T_set_adj m a b c : GG m -> GG (set_adj m a b c).
   Proof. intros H. unfold set_adj. now apply H_frame. Qed.
+  Ltac tut := apply T_upd_track; [intros ?; reflexivity|].
 
   Lemma fold_T {A} (f : mstate -> A -> mstate) (l : list A) :
     (forall m a, GG m -> GG (f m a)) -> forall m, GG m -> GG (fold_left f l m).
@@ -256,15 +271,15 @@ Section Traverse.
     intros H. unfold fmp4WriteSample.
     destruct (nth_error (m_tracks m) ti) as [t|]; [|exact H].
     destruct (_ <? 0); [exact H|].
-    destruct (tk_next t) as [prev|]; [|cbn [fst wok]; now apply T_upd_track].
+    destruct (tk_next t) as [prev|]; [|cbn [fst wok]; (tut; assumption)].
     match goal with |- context [if ?c then wok ?a else _] =>
-      destruct c; [cbn [fst wok]; now apply T_upd_track|] end.
+      destruct c; [cbn [fst wok]; (tut; assumption)|] end.
     match goal with |- context [part_writeSample ?m3 ti ?si ?smp] =>
       assert (H3 : GG m3); [|destruct (part_writeSample m3 ti si smp) as [m4| |] eqn:Ew; [|exact H3|exact H3]] end.
     { match goal with |- GG (if ?c then fmp4AdjustPartDuration ?x ?y else ?z) => destruct c end;
         try apply T_adjust;
         match goal with |- GG (if ?c then createFirstSegment ?x ?y ?z else ?w) => destruct c end;
-        try apply H_create; now apply T_upd_track. }
+        try apply H_create; (tut; assumption). }
     pose proof (H_pws _ _ _ _ _ H3 Ew) as H4.
     destruct (negb (tk_leading t)); [exact H4|].
     destruct (nth_error (m_streams m4) (tk_stream t)) as [s|]; [|exact H4].
@@ -280,9 +295,9 @@ Section Traverse.
     destruct (a_params a) as [p|].
     - destruct (ex && negb (p =? tk_params t));
         match goal with |- context [if ?c then _ else _] => destruct c end; cbn [fst];
-        repeat (first [apply T_set_pending | apply T_upd_track]); exact H.
+        repeat (first [apply T_set_pending | tut]); exact H.
     - match goal with |- context [if ?c then _ else _] => destruct c end; cbn [fst];
-        repeat (first [apply T_set_pending | apply T_upd_track]); exact H.
+        repeat (first [apply T_set_pending | tut]); exact H.
   Qed.
 
   Lemma T_write_video m ti t a : GG m -> GG (fst (write_video m ti t a)).
@@ -291,7 +306,7 @@ Section Traverse.
     set (ex := match t_kind (tk_cfg t) with H264 | H265 => true | _ => a_ra a end).
     pose proof (T_video_params m ti t a ex H) as H1.
     destruct (video_params m ti t a ex) as [m1 pc]. cbn [fst] in H1.
-    assert (H2 : GG (set_firstRA m1 ti)) by (unfold set_firstRA; now apply T_upd_track).
+    assert (H2 : GG (set_firstRA m1 ti)) by (unfold set_firstRA; (tut; assumption)).
     destruct (t_kind (tk_cfg t)).
     - destruct (negb (a_ra a) && negb (a_nonidr a)); [exact H1|].
       destruct (negb (tk_firstRA t) && negb (a_ra a)); [exact H1|].
